@@ -58,7 +58,7 @@ def load_known(pid):
             out[e["key"]] = e
     # development aid only: proposals not yet merged into known_findings.json
     extra = os.environ.get("VERIF_KNOWN_EXTRA")
-    if extra and os.path.exists(extra):
+    if extra and os.path.exists(extra) and os.path.getsize(extra) > 0:
         with open(extra) as f:
             for e in json.load(f).get("findings", []):
                 if e.get("property") == pid and e.get("status") == "known":
